@@ -5,8 +5,63 @@ from __future__ import annotations
 from simkit import enginea
 from simkit.acheck import EngineACheck
 from simkit.choices import Choices
-from simkit.progs import ALL_FEATURES, Gen, GenConfig
+from simkit.progs import ALL_FEATURES, HEADER, Gen, GenConfig, RawProgram
 from simkit.runner import RunOutcome
+
+
+def gen_twin_program(ch: Choices) -> RawProgram:
+    """
+    Targeted family: the same few leaf calls reached directly, through delay chains (so that
+    they arrive before / while / after their twin runs), through wrappers that opt out
+    (prov=False, cache_scope=NONE, cache=False), behind limits and behind seq barriers.
+    """
+    L = [HEADER.format(ns="vp")]
+    nleaf = 1 + ch.choice(2, "nleaf")
+    for i in range(nleaf):
+        opts = []
+        if ch.coin(0.3, "leaf-limit"):
+            opts.append("limits=['r1']")
+        if ch.coin(0.15, "leaf-process"):
+            opts.append("executor='process'")
+        body = f"    hit('leaf{i}', x)\n"
+        if ch.coin(0.2, "leaf-raises"):
+            body += f"    raise ValueError('boom-leaf{i}')\n"
+        L.append(f"@task({', '.join(opts)})\ndef leaf{i}(x):\n{body}    return mix('leaf{i}', x)\n\n")
+    L.append("@task()\ndef delay(x):\n    return x\n\n")
+    wrappers = [("w_plain", ""), ("w_np", "prov=False"), ("w_none", "cache_scope='NONE'"),
+                ("w_cse", "cache=False"), ("w_lim", "limits=['r1']")]
+    for name, opt in wrappers:
+        for i in range(nleaf):
+            L.append(f"@task({opt})\ndef {name}{i}(x):\n    return leaf{i}(x)\n\n")
+
+    def arg():
+        c = str(ch.choice(2, "const"))
+        for _ in range(ch.choice(4, "delays")):
+            c = f"delay({c})"
+        return c
+
+    def item():
+        i = ch.choice(nleaf, "which-leaf")
+        k = ch.choice(8, "item-kind")
+        if k <= 2:
+            return f"leaf{i}({arg()})"
+        if k == 3:
+            return f"no_prov(leaf{i}({arg()}))"
+        name = wrappers[k - 3][0] if k - 3 < len(wrappers) else "w_plain"
+        return f"{name}{i}({arg()})"
+
+    n = 3 + ch.choice(4, "nitems")
+    items = [item() for _ in range(n)]
+    if ch.coin(0.3, "seq-barrier"):
+        k = 1 + ch.choice(n - 1, "seq-split")
+        expr = f"[seq([{', '.join(items[:k])}]), {', '.join(items[k:])}]"
+    else:
+        expr = "[" + ", ".join(items) + "]"
+    if any("raise" in x for x in L):
+        expr = f"catch_all({expr})" if ch.coin(0.5, "wrap-catch-all") else expr
+    L.append(f"@task()\ndef t0():\n    return {expr}\n")
+    limits = {"r1": 1 + ch.choice(2, "r1-cap")} if ch.coin(0.7, "r1-configured") else {}
+    return RawProgram("".join(L), limits=limits)
 
 
 class C06(EngineACheck):
@@ -22,7 +77,7 @@ class C06(EngineACheck):
     QUICK_SECONDS = 35.0
 
     def gen_config(self, ch: Choices) -> GenConfig:
-        feats = set(ALL_FEATURES) - {"tags", "forkjoin"}
+        feats = (set(ALL_FEATURES) | {"noprov"}) - {"tags", "forkjoin"}
         return GenConfig(
             features=feats,
             p_error=0.3,
@@ -32,30 +87,19 @@ class C06(EngineACheck):
             p_limit=0.4,
             dict_limits=True,
             task_options=[{"cache_scope": "CSE"}, {"cache_scope": "NONE"}, {"cache": False},
-                          {"check_valid": "shallow"}],
-            p_task_option=0.2,
+                          {"check_valid": "shallow"}, {"prov": False}],
+            p_task_option=0.3,
             max_tasks=7,
         )
 
     def run_one(self, ch: Choices) -> RunOutcome:
         out = RunOutcome()
-        prog = Gen(ch, self.gen_config(ch)).generate()
-        collapsed = []
-
-        def setup(w, rec, sched):
-            import redun.scheduler as rs
-
-            orig = rs.Job.collapse
-
-            def collapse(self, other):
-                collapsed.append((self.id, other.id))
-                return orig(self, other)
-
-            rs.Job.collapse = collapse
-            rec._restore_collapse = lambda: setattr(rs.Job, "collapse", orig)
-
-        res = enginea.simulate(ch, prog, setup=setup)
-        res.rec._restore_collapse()
+        if ch.choice(2, "program-family") == 1:
+            prog = gen_twin_program(ch)
+            out.probe("twin_family_programs")
+        else:
+            prog = Gen(ch, self.gen_config(ch)).generate()
+        res = enginea.simulate(ch, prog)
         w, rec = res.world, res.rec
         self.fill(out, w, prog)
         if res.outcome[0] == "abort":
@@ -64,7 +108,7 @@ class C06(EngineACheck):
             out.sample = self.sample(prog, w, res)
             return out
 
-        collapsed_ids = {a for a, _ in collapsed}
+        collapsed_ids = set(rec.collapsed)
         # 1. hand-offs per (eval_hash, context) among jobs that did not opt out.
         groups: dict = {}
         for jid in rec.order:
